@@ -263,8 +263,9 @@ def plumbing(repo, report):
         for bi, ri, pos, val, s in m.slots("modifiers"):
             if "ReverseComplementer(" in s.key:
                 rn = val.get("truthy:args.rename")
-                sfx = "rc_suffix=' rc'" in s.key
-                none = "rc_suffix=None" in s.key
+                rcs = builder_rules.term_args(repo, s.key).get("rc_suffix")
+                sfx = rcs == "' rc'"
+                none = rcs == "None"
                 seen[(rn, sfx, none)] = s.key[:80]
         ok = bool(seen) and all((rn is False and sfx) or (rn is True and none) for (rn, sfx, none) in seen)
         report.ob("C16.R3", f"{'paired' if pm else 'single'}: ' rc' suffix iff --rename absent", ok, facts={"cases": {str(k): v for k, v in seen.items()}}, expected="rc_suffix=' rc' iff not args.rename, else None", loc="src/cutadapt/cli.py")
